@@ -11,6 +11,7 @@ Extracted with `ast` only (shapes are matched strictly; anything else raises Unt
                                                                -> privatePrefix
   purge tests: `now > device.valid_to`, `now > valid_to`, `self.next_valid_to > now` (strictness of the comparisons)
                                                                -> purgeTests
+  _see_device: the order of its top-level statements (validate USN -> purge -> ...)  -> seeDeviceOrder
 """
 from __future__ import annotations
 
@@ -129,6 +130,45 @@ def _purge_tests(mod: ast.Module):
     return out
 
 
+def _see_device_order(mod: ast.Module):
+    """top-level statements of SsdpDeviceTracker._see_device, classified (order matters: validate -> purge -> ...)"""
+    cls = [n for n in mod.body if isinstance(n, ast.ClassDef) and n.name == "SsdpDeviceTracker"]
+    if not cls:
+        raise Untranslatable("SsdpDeviceTracker not found")
+    fn = next((f for f in cls[0].body if isinstance(f, ast.FunctionDef) and f.name == "_see_device"), None)
+    if fn is None:
+        raise Untranslatable("_see_device not found")
+    out = []
+    for st in fn.body:
+        src = ast.unparse(st)
+        if isinstance(st, ast.Expr) and isinstance(st.value, ast.Constant):
+            continue  # docstring
+        if isinstance(st, ast.If) and "udn_from_usn" in ast.unparse(st.test) and any(isinstance(b, ast.Return) for b in st.body) \
+                and not st.orelse and "purge" not in src:
+            out.append("validate-usn-return")
+        elif isinstance(st, ast.Assign) and src.startswith("now = headers.get_lower('_timestamp')"):
+            out.append("now")
+        elif isinstance(st, ast.Expr) and src == "self.purge_devices(now)":
+            out.append("purge")
+        elif isinstance(st, ast.Assign) and src == "valid_to = extract_valid_to(headers)":
+            out.append("valid_to")
+        elif isinstance(st, ast.If) and src.startswith("if udn not in self.devices:") and st.orelse:
+            out.append("create-or-refresh")
+        elif isinstance(st, ast.Assign) and src == "new_location = location_changed(ssdp_device, headers)":
+            out.append("location_changed")
+        elif isinstance(st, ast.Expr) and src == "ssdp_device.add_location(headers.get_lower('location'), valid_to)":
+            out.append("add_location")
+        elif isinstance(st, ast.Assign) and src == "ssdp_device.last_seen = now":
+            out.append("last_seen")
+        elif isinstance(st, ast.If) and "next_valid_to" in ast.unparse(st.test) and not st.orelse:
+            out.append("lower-watermark")
+        elif isinstance(st, ast.Return):
+            out.append("return")
+        else:
+            raise Untranslatable(f"_see_device: unexpected statement {src[:100]}")
+    return out
+
+
 @generator("C03Tracker")
 def gen(repo: Path) -> str:
     mod = parse(repo, SRC)
@@ -154,6 +194,7 @@ def gen(repo: Path) -> str:
         raise Untranslatable("valid_*_headers: location.startswith(...) missing")
     priv = _skip_test(mod)
     tests = _purge_tests(mod)
+    order = _see_device_order(mod)
 
     def sl(xs):
         return lean_list([lean_str(x) for x in xs])
@@ -175,5 +216,6 @@ def gen(repo: Path) -> str:
     out += f"def byebyeLocationPrefix : Option String := {'none' if b_pre is None else 'some ' + lean_str(b_pre)}\n"
     out += f"def byebyeBadNeedles : List String := {sl(b_needles)}\n"
     out += f"def purgeTests : List String := {sl(tests)}\n"
+    out += f"def seeDeviceOrder : List String := {sl(order)}\n"
     out += "\nend Upnp.Gen.C03Tracker\n"
     return out
